@@ -292,6 +292,15 @@ def run_shard(ctx, K=None):
         run_case(ctx, gd_, q_, via=rng.choice(("outcomes", "identify")))
     mon_id.CONFIG["max_nodes_semantic"] = 6
     for _ in range(ctx.share({"quick": 64, "thorough": 800}[ctx.tier])):
+        # a confounder that reaches the outcome only through the treatment (z -> x -> y, z <-> y), in a graph of 10..14
+        # nodes: pruning the graph to "what matters" before identification must not drop z
+        z_, x_, y_ = rng.sample(["Z", "X", "Y", "V1", "V2", "V3"], 3)
+        core_ = {"nodes": [z_, x_, y_], "di": [[z_, x_], [x_, y_]] + ([[z_, y_]] if rng.random() < 0.2 else []),
+                 "bi": [[z_, y_]], "hostile": "planted-confounder-behind-the-treatment"}
+        gdw, padw = gg.embed_wide(core_, rng, rng.randint(10, 14))
+        run_case(ctx, gdw, {"X": [x_], "Y": [y_], "cls": "planted"}, via=rng.choice(("outcomes", "single", "outcomes-kw")),
+                 cards={w: 1 for w in padw})
+    for _ in range(ctx.share({"quick": 64, "thorough": 800}[ctx.tier])):
         gd_, q_, cards_ = planted_many_treatments(rng)
         run_case(ctx, gd_, q_, via=rng.choice(("outcomes", "identify")), cards=cards_)
     # edit histories: the same graph object is queried, edited in place and queried again
